@@ -56,7 +56,7 @@ def run(ctx: Ctx):
                        dc.consts(MaxId=3, Cmds=["Start", "Step", "Pause"], Bounds=[], MaxCmds=6, MaxInits=3, **small))
     groups = {}
     bi = 0
-    cs = dc.consts(MaxId=7, MaxOps=2, Prios=[1, 5], RelDelays=[0, 1, 2], AbsTimes=[], BadKinds=[], Cmds=HIST, Bounds=[1, 2, 3],
+    cs = dc.consts(MaxId=7, MaxOps=2, Prios=[1, 5], RelDelays=[0, 1, 2], AbsTimes=[], BadKinds=["reinit"], Cmds=HIST, Bounds=[1, 2, 3],
                    MaxCmds=9, MaxInits=3, EndT=4, WarmT=2, AllowFaults=True)
     for beh in dc.simulate(ctx, "DEVS re-initialisation", cs, num=ctx.pick(200, 2000), depth=70, seed=ctx.seed + 60):
         conc = dd.CONCS_OFF[bi % len(dd.CONCS_OFF)]
@@ -78,7 +78,7 @@ def run(ctx: Ctx):
         end_t, warm_t = ctx.rng.choice([(4, 2), (6, 0)])
         strat = "pause"
         ctl = dc.random_run(ctx, ctx.rng, conc, end_t, warm_t, strat, cmds=HIST, ncmds=ctx.rng.choice([0, 2, 4, 7]),
-                            maxev=ctx.rng.choice([6, 12]), p_fault=ctx.rng.choice([0.0, 0.3]), model_factory=ds.StatModel, dispose=False)
+                            maxev=ctx.rng.choice([6, 12]), p_fault=ctx.rng.choice([0.0, 0.3]), model_factory=ds.StatModel, dispose=False, probe_starting=True)
         fresh = None
         try:
             with dd.quiet():
@@ -100,7 +100,7 @@ def run(ctx: Ctx):
         errs = ctl.errors + (fresh.errors if fresh else [])
         tr = dd.clean_trace(ctl.trace) + [{"a": "NewSimulator"}] + dd.clean_trace(fresh.trace if fresh else [])
         if errs:
-            ctx.violation(("exec_unexpected" if errs[0].startswith("exec_unexpected") else "harness|" + errs[0].split()[0]),
+            ctx.violation(dc.err_key(errs),
                           f"random history {i}: {errs}", {"trace": tr})
             continue
         groups.setdefault((end_t, warm_t, strat), []).append((tr, f"random history {i} {conc} then fresh simulator"))
@@ -108,6 +108,8 @@ def run(ctx: Ctx):
             ctx.sample({"kind": "C->S trace (commands)", "events": [{k: v for k, v in e.items() if k != "stats"} for e in tr if e["a"] not in ("Notif", "Exec")][:14]})
     dc.validate_groups(ctx, groups, keyfn=keyfn)
     dc.selftest(ctx, groups)
+    if ctx.violations:
+        return
     # second self-test: a corrupted statistics digest must be rejected
     from harness import traces as tv, tlc
     for key, items in groups.items():
